@@ -14,6 +14,8 @@ MT = {
 }
 TOL = CheckFn("c11-tol", "Model.Tolerance", "tol_check", Tup(QQ, QQ, QQ, QQ, QQ))
 CHECKFNS = C01.CHECKFNS + C02.CHECKFNS + list(MT.values()) + C03.CHECKFNS + [TOL]
+from harness.props import _c11_mag
+CHECKFNS = CHECKFNS + [_c11_mag.MAG]
 
 def tol_cases(rng, n, violations):
     """The meaning of `tol` (fixed-point): an ABSOLUTE stopping distance, whatever the magnitude of the values.
@@ -68,6 +70,7 @@ ASSUMPTIONS = [
     "Log = log Real: both judged against the ereal model; Bool = support of Real: theorem supp_Zk; Viterbi <= Log: the Viterbi result with real-valued log-weights is judged against the max-times model and theorem maxtimes_le_plustimes gives the inequality",
     "dtype float32 and the interpreter flags are runtime behaviour: decided by differential execution only",
     "gradients across option combinations are judged by C03's gradient check when available; j_precompute=True gradients are compared with j_precompute=False here (see known findings)",
+    "magnitude stream (harness/props/_c11_mag.py, Model/Magnitude.v): the enclosure of the least solution is computed in Python with integer square roots but only used after Coq has checked the certificate (cert_ok); the conversion of the Log semiring's stopping distance to an absolute one ((e^tol - 1) * hi), the rounding allowances eps (1e-11 float64, 2e-5 float32, x20 for Log, divided by 1-L) and the first-order allowance for gradients taken at the approximate solution are computed in Python and trusted",
 ]
 
 class SRX(SR):
@@ -200,6 +203,15 @@ def run(tier, seed):
         violations.append(Violation("fixed-point result is not within tol/(1-a) of the least fixed point (verdict %d of tol_check): tol is not an absolute stopping distance" % c,
                                     case=m, observed=m["observed"], expected=m["least_fixed_point"], oracle="tol_check (C11_fixed_point_stop_bound, C11_tol_check_rejects)",
                                     corr="C11 / corr:tol", call="sum_product(method='fixed-point', tol=%s)" % m["tol"], failing_input_found=(c == 1)))
+    # magnitudes: components tiny / huge relative to tol, scale factors up- and downstream (Model/Magnitude.v)
+    mvals, mmetas, mag_hist = _c11_mag.cases(rng, int(os.environ.get("VERIF_MAG_N", 0)) or (6 if tier == "quick" else 120), tier, violations)
+    mcodes, a = run_model(_c11_mag.MAG, mvals, seed=seed, coq_sample=3, tag="c11mag"); nk += a; total += len(mcodes)
+    for (m, call), c in zip(mmetas, mcodes):
+        if c == 0: continue
+        violations.append(Violation("magnitude stream, verdict %d of mag_check: %s" % (c, _c11_mag.VERDICT.get(c, "?")), case=m, observed=m["observed"],
+                                    expected=dict(least_solution=m["least_solution"]), call=call, corr="C11 / corr:magnitude",
+                                    oracle="mag_check (C11_certificate_encloses_least_solution, C11_newton_stop_bound, C11_fixed_point_stop_bound_quadratic, C11_value_below_base_weight_rejected)",
+                                    failing_input_found=c in (1, 2, 3, 4)))
     # gradients across method x j_precompute x semiring (C03's dual-number check)
     gvals = []; gmeta = []; f9_skipped = 0
     for gi in range(max(6, n // 2)):
@@ -250,9 +262,10 @@ def run(tier, seed):
                option_combinations_per_grammar=len(jobs) // max(n, 1) * 2,
                bitwise_identical_OO_vs_normal=bitwise_same, bitwise_different=len(bitwise_diff), bitwise_different_samples=bitwise_diff[:3],
                asserts_scanned=n_assert, asserts_with_side_effects=side,
-               rule="random FGG specs (half non-recursive, half recursive) x {Real f64, Real f32, Log, Viterbi(real log-weights, max-times reading), Bool} x {fixed-point, newton, newton+j_precompute, linear} x {python, python -OO}; every result judged in Coq against the exact model; distinct_nontrivial = distinct specs",
+               rule="random FGG specs (half non-recursive, half recursive) x {Real f64, Real f32, Log, Viterbi(real log-weights, max-times reading), Bool} x {fixed-point, newton, newton+j_precompute, linear} x {python, python -OO}; every result judged in Coq against the exact model; distinct_nontrivial = distinct specs; plus the magnitude stream: per-element scalar systems x = c x^2 + a x + b (quadratic / quadratic+linear / linear SCC) with solutions 1e-8..1e8 (all below tol, above tol, mixed), contraction 1e-6..0.8, scale factors 1e-8..1e8 upstream (earlier component) and downstream, elements without derivation, x {fixed-point, newton, newton+j_precompute, linear} x {float64, float32} x {Real, Log} x {default tol, explicit tol 1e-2/1e-3/1e-6/1e-9}: X, Z, dZ/d(base weight), dZ/dg judged in Coq (mag_check) against a certified enclosure of the least solution",
                kernel_reevaluated=nk,
                samples=[dict(info=repr(info[0][1:4]), result=res_n[0])],
+               magnitude_cases=len(mvals), magnitude_histogram=mag_hist,
                gradient_cases=len(gvals), jprecompute_gradient_exceptions=f9_skipped,
                open_items=["gradients are judged on C03's j_precompute-friendly grammar family (rules with one or two edges); on other shapes j_precompute=True is covered by the known findings F9"])
     return cov, violations
@@ -263,7 +276,7 @@ def replay(path):
 
 MANIFEST = dict(
     level="proof",
-    text="Coq: a semiring homomorphism commutes with every Kleene iterate of the sum-product (hence Boolean result = support of the Real result), max-times is below plus-times on [0,inf] (Viterbi <= Log in the exp reading), Log and Real share one model; one-step and linear downgrades are sound by C01/C02. Differential execution: every combination of method x j_precompute x dtype x {python, python -OO} on generated FGGs is judged in Coq against the same exact model; bitwise agreement of -OO with the normal interpreter and a static scan of assert statements are recorded.",
+    text="Coq: a semiring homomorphism commutes with every Kleene iterate of the sum-product (hence Boolean result = support of the Real result), max-times is below plus-times on [0,inf] (Viterbi <= Log in the exp reading), Log and Real share one model; one-step and linear downgrades are sound by C01/C02. Differential execution: every combination of method x j_precompute x dtype x {python, python -OO} on generated FGGs is judged in Coq against the same exact model; bitwise agreement of -OO with the normal interpreter and a static scan of assert statements are recorded. Magnitudes: for scalar polynomial components (solutions 1e-8..1e8, default and explicit tol, scale factors up- and downstream) values and gradients of every method x dtype x {Real, Log} are judged in Coq against a certified enclosure of the least solution; proved: the certificate encloses it, newton stops within tol*L/(1-L), fixed-point within tol/(1-L), the base weight is within relative L of the solution, a value below the base weight is rejected.",
     note="Partial: dtype and interpreter flags are runtime behaviour a Gallina model cannot exhibit; decided by differential execution. Trusted: Coq kernel, extraction cross-checked by vm_compute, harness and worker.",
     technique="Coq homomorphism/lax-homomorphism theorems + model-judged differential execution over the option matrix",
     design_ref="DESIGN.md section 6, C11")
